@@ -131,6 +131,7 @@ class Continue:
 @dataclass
 class Return:
     kw: str = 'RETURN'
+    value: Any = None            # RETURN <expr>: the expression is evaluated, its value is not used by anything
 
 @dataclass
 class FuncDef:
@@ -219,7 +220,7 @@ class Renderer:
             self.emit(d, self.kw('WHILE') + ' ' + (f'{s.var},' if s.var else '') + self.r(s.cond), s); self.block(s.body, d + 1)
         elif isinstance(s, Break): self.emit(d, self.kw(s.kw), s)
         elif isinstance(s, Continue): self.emit(d, self.kw(s.kw), s)
-        elif isinstance(s, Return): self.emit(d, self.kw(s.kw), s)
+        elif isinstance(s, Return): self.emit(d, self.kw(s.kw) + ('' if s.value is None else ' ' + self.r(s.value)), s)
         elif isinstance(s, FuncDef):
             self.emit(d, f'{self.kw("FUNC")} {s.name}' + ((' ' + self.comma().join(s.params)) if s.params else ''), s); self.block(s.body, d + 1)
         elif isinstance(s, Call):
@@ -346,7 +347,9 @@ class Interp:
                 i += 1
         elif isinstance(s, Break): raise Signal('break')
         elif isinstance(s, Continue): raise Signal('continue')
-        elif isinstance(s, Return): raise Signal('return')
+        elif isinstance(s, Return):
+            if s.value is not None: self.ev(s.value)
+            raise Signal('return')
         elif isinstance(s, FuncDef): self.fframes[-1][s.name] = s
         elif isinstance(s, Call):
             f = self.func(s.name)
